@@ -2,6 +2,8 @@
 
   rad.translate  public call: solver(x, t) == solver(x - M0 a0 (t - t0), t0) with
                  a0 = sqrt(gamma (gamma-1) Cv Tref) computed by the monitor from the *user's* parameters
+  rad.ends       ... and the downstream state is the compressed root of the radiation-modified jump conditions (reference by
+                 continuation from the hydrodynamic jump), not the upstream state or a rarefaction state
   rad.mass       rho u constant along the profile and equal to rho0 M0 a0 (profile attributes)
   rad.momentum   rho u^2 + p + f a_r T_r^4 constant (f = 1/3; Sn: the returned Eddington factor; ED: T_m)
   rad.energy     u (rho u^2/2 + rho e + p) + a0 Fr constant (Fr is stored per upstream sound speed)
@@ -12,9 +14,9 @@ import math
 
 import numpy as np
 
-from ..core import Unit, Skip, SolverRaised, logu, uni, choice
+from ..core import Unit, Skip, SolverRaised, logu, uni, choice, sgn
 
-RULE = ("Mach numbers 1.05-3, gamma 1.2-5/3, Cv/Tref/rho0/sigA over a decade, absorption exponents, closures "
+RULE = ("Mach numbers 1.05-3, gamma 1.2-5/3, Cv/Tref/rho0/sigA over a decade, absorption and scattering coefficients and exponents, closures "
         "{nED, LM_nED, FLD_LP, FLD_1, FLD_2}; a constructor that raises is counted and skipped (the property speaks of "
         "Mach numbers for which a solution is produced).  distinct = (monitor, solver, closure/branch, case).")
 ASSUME = ["profile attributes Density, Speed, Pressure, SIE, Tm, Tr, Fr, VEF, x as used by the package's own flux tests",
@@ -24,12 +26,39 @@ ASSUME = ["profile attributes Density, Speed, Pressure, SIE, Tm, Tr, Fr, VEF, x 
 AR = 137.20172
 
 
+def jump_reference(M0, g, P0, K=60):
+    """(rho1/rho0, T1/T0) of the compressed equilibrium state: momentum and total-energy flux balance with radiation
+    pressure P0 T^4/3 and radiation enthalpy flux, followed from the hydrodynamic jump (P0 = 0) by continuation in P0"""
+    import scipy.optimize as so
+    M02 = M0 * M0
+
+    def f(x, P):
+        r, T = x
+        T4 = T ** 4
+        return [M02 + r * r * T / g + P * r * T4 / 3.0 - r * (M02 + 1.0 / g + P / 3.0),
+                M02 / 2.0 + r * r * T / (g - 1.0) + 4.0 * P * r * T4 / 3.0 - r * r * (M02 / 2.0 + 1.0 / (g - 1.0) + 4.0 * P / 3.0)]
+    x = np.array([(g + 1.0) * M02 / ((g - 1.0) * M02 + 2.0), (2.0 * g * M02 - (g - 1.0)) * ((g - 1.0) * M02 + 2.0) / ((g + 1.0) ** 2 * M02)])
+    import warnings
+    with warnings.catch_warnings():
+        warnings.simplefilter("ignore")
+        for k in range(1, K + 1):
+            Pk = P0 * (k / K) ** 3
+            x = so.fsolve(f, x, args=(Pk,), xtol=1e-13)
+            if max(abs(v) for v in f(x, Pk)) > 1e-9 * M02 or not (x[0] > 1.0 + 1e-7):
+                return None
+    return x
+
+
 def gen_params(rng, small=False):
     g = choice(rng, [5.0 / 3.0, 1.4, uni(rng, 1.2, 5.0 / 3.0)])
     return dict(M0=choice(rng, [1.05, 1.2, uni(rng, 1.05, 1.6), uni(rng, 1.6, 3.0)]) if not small else uni(rng, 1.05, 1.5),
                 rho0=logu(rng, 0.3, 3.0), Tref=logu(rng, 50, 300), Cv=1.4472799784454e12 * logu(rng, 0.5, 2.0),
                 gamma=g, sigA=577.35 * logu(rng, 0.3, 3.0),
-                expDensity_abs=choice(rng, [0.0, 0.0, uni(rng, 0.0, 1.5)]), expTemp_abs=choice(rng, [0.0, 0.0, -uni(rng, 0.0, 2.0)]))
+                expDensity_abs=choice(rng, [0.0, 0.0, uni(rng, 0.0, 1.5)]), expTemp_abs=choice(rng, [0.0, 0.0, -uni(rng, 0.0, 2.0)]),
+                # scattering: off (the default), constant, or a power law in density and/or temperature - each exponent
+                # independently zero or not, so that every combination of the four exponents' zero patterns occurs
+                sigS=choice(rng, [0.0, 577.35 * logu(rng, 0.1, 1.0), 577.35 * logu(rng, 0.1, 1.0)]),
+                expDensity_scat=choice(rng, [0.0, uni(rng, 0.0, 1.5)]), expTemp_scat=choice(rng, [0.0, uni(rng, -1.5, 1.5)]))
 
 
 def gen(kind):
@@ -37,6 +66,17 @@ def gen(kind):
         kw = gen_params(rng, small=(kind != "ED"))
         if i % 4 == 0:
             kw = dict(M0=kw["M0"])             # defaults except the Mach number
+        if i % 4 != 0:
+            # which of the four opacity exponents are zero is enumerated (16 patterns), not drawn: code paths that
+            # special-case a zero exponent are selected by exactly these patterns
+            bits = (i - i // 4 - 1) % 16
+            for b, (k, lo, hi) in enumerate((("expDensity_abs", 0.2, 1.5), ("expTemp_abs", -2.0, -0.2), ("expDensity_scat", 0.2, 1.5), ("expTemp_scat", -1.5, 1.5))):
+                kw[k] = 0.0 if not (bits >> b) & 1 else (uni(rng, lo, hi) if k != "expTemp_scat" else sgn(rng) * uni(rng, 0.2, 1.5))
+            if bits >> 2:
+                kw["sigS"] = 577.35 * logu(rng, 0.1, 1.0)
+        if kind == "ED" and i in (1, 2):
+            # parameter sets for which the downstream root finder used to fall onto the upstream state (fixed in the repository)
+            kw = [dict(M0=1.2, gamma=1.2), dict(M0=2.0, gamma=1.4)][i - 1]
         if kind == "nED":
             kw["problem"] = ["nED", "LM_nED", "FLD_LP", "FLD_1", "FLD_2"][i % 5]
         if kind == "Sn":
@@ -89,6 +129,17 @@ def run(ctx, p):
         if not (kind == "ED" and j == -1):
             feq = abs(a0 * Fr[j] - (4.0 / 3.0) * u[j] * AR * Tr[j] ** 4) / abs((4.0 / 3.0) * u[j] * AR * Tr[j] ** 4)
             ctx.observe("rad.ends", name, feq <= 2e-3, branch="equilibrium flux %s %s" % (side, br), measure=feq, tol=2e-3, detail=det)
+    # the downstream state is the *compressed* root of the radiation-modified jump conditions: the system also has the
+    # upstream state itself (rho = T = 1: no shock at all) and a rarefaction state as roots, and constant fluxes cannot tell
+    # them apart.  Reference: the root that continues the hydrodynamic Rankine-Hugoniot state as the radiation constant
+    # P0 = a_R Tref^4 / (rho0 a0^2) is switched on in 60 steps (no reference where the continuation leaves rho > 1).
+    ref = jump_reference(M0, g, AR * Tref ** 4 / (rho0 * a0 * a0))
+    if ref is None:
+        ctx.count("no_compressed_reference_root:" + name)
+    else:
+        dr, dT = abs(rho[-1] / rho0 / ref[0] - 1.0), abs(Tm[-1] / Tref / ref[1] - 1.0)
+        ctx.observe("rad.ends", name, max(dr, dT) <= 1e-5, branch="downstream = compressed root of the jump conditions " + br, measure=max(dr, dT), tol=1e-5,
+                    detail=dict(det, M0=M0, gamma=g, P0=AR * Tref ** 4 / (rho0 * a0 * a0), returned=[float(rho[-1] / rho0), float(Tm[-1] / Tref)], reference=[float(ref[0]), float(ref[1])]))
     up = max(abs(rho[0] / rho0 - 1), abs(Tm[0] / Tref - 1), abs(u[0] / (M0 * a0) - 1))
     ctx.observe("rad.ends", name, up <= 1e-4, branch="upstream = user's state " + br, measure=up, tol=1e-4, detail=det)
     # ---- translation through the public call -----------------------------------------------------------------
@@ -125,7 +176,7 @@ def reach(tot, tier):
 
 
 UNITS = [
-    Unit("ED", gen("ED"), run, quick=24, thorough=240, min_nontrivial=30),
+    Unit("ED", gen("ED"), run, quick=32, thorough=240, min_nontrivial=30),
     Unit("nED", gen("nED"), run, quick=40, thorough=400, min_nontrivial=60),
     Unit("Sn", gen("Sn"), run, quick=2, thorough=12, min_nontrivial=4),
 ]
